@@ -73,6 +73,7 @@ type Exec struct {
 	regions  map[string][]knownRegion
 	allowPanic []string
 	funcsSeen map[*ssa.Function]bool
+	blocksSeen map[*ssa.BasicBlock]bool
 	spec     bool // speculative (fork-free) evaluation
 	pr       *pathReport
 	lastFoldOK bool
@@ -411,6 +412,9 @@ func (x *Exec) callValue(f Value, args []Value) Value {
 
 func (x *Exec) runBlock(fr *Frame) {
 	b := fr.block
+	if x.blocksSeen != nil {
+		x.blocksSeen[b] = true
+	}
 	if len(b.Preds) > 1 {
 		fr.loopCount[b]++
 		if fr.loopCount[b] > x.unwind {
@@ -748,6 +752,9 @@ func (x *Exec) tryFold(fr *Frame, b *ssa.BasicBlock, c *Term) bool {
 				if !ok {
 					return false
 				}
+				if x.blocksSeen != nil {
+					x.blocksSeen[blk] = true
+				}
 				n := len(blk.Instrs)
 				for _, inst := range blk.Instrs[nphi : n-1] {
 					x.step(fr, inst)
@@ -817,6 +824,9 @@ func sameValue(a, b Value) bool {
 
 // runBlockFrom executes block b starting after nphi phi nodes (which the caller has set).
 func (x *Exec) runBlockFrom(fr *Frame, b *ssa.BasicBlock, nphi int) {
+	if x.blocksSeen != nil {
+		x.blocksSeen[b] = true
+	}
 	if len(b.Preds) > 1 {
 		fr.loopCount[b]++
 		if fr.loopCount[b] > x.unwind {
